@@ -63,6 +63,12 @@ family are shared by its documents at random.  Its histories walk through ALL or
 the family's document roles in every run — both orders of every pair, a document after another object of its own
 constructor call, the pairs (multi-section first, single-section target) twice —: whatever an encode leaves behind in an
 object it was given (a per-section flag, a suppressed text, a border) shows in the next document built on that object.
+REFUSED CONSTRUCTIONS per pool (`gen_refused`): documents whose `RTFDocument(...)` call the validator rejects (figure with a
+table-rendered footnote / source, frame and figure together, neither, bodies / nested headers of another length than the
+frames, page_by / group_by / subline_by on a missing column, group_by on a removed column), built on objects that live
+documents use; histories ATTEMPT them (operation `attempt`, exception caught and recorded) between the operations on a live
+document sharing one of the objects — an attempt that is refused must leave every object it was handed as it was (model:
+a step that changes nothing), so the live document's next encode is the fresh interpreter's.
 """
 from __future__ import annotations
 
@@ -132,7 +138,17 @@ RULE = ("pool per round: ≥ 12 document kinds (plain, two coloured palettes, mu
         "single-section target) again + 1 random, shuffled once per run and walked through (every pair in every quick "
         "run), as: encode then construct the target / construct both then encode / encode twice / encode and drop / "
         "target encoded before AND after the other document; 30 % with one more encode (failing document or another "
-        "member) in front")
+        "member) in front. "
+        "Per round also REFUSED CONSTRUCTIONS (appended last, 8 histories per round; thorough 15): 12-14 documents the "
+        "constructor rejects, built on objects live documents use — figure + table-rendered footnote (of the shared-"
+        "sections family / of the base pool), figure + table-rendered source, frame + figure, neither frame nor figure, "
+        "more / fewer bodies than frames, a bare body for a list of frames, nested headers of another length, page_by / "
+        "group_by / subline_by naming a column the frame lacks (a base-pool body on a two-column frame), group_by on a "
+        "column page_by removes; histories (the refused documents in turn): operation `attempt` (RTFDocument(...) in "
+        "try/except, outcome recorded) once or twice, placed as encode-attempt-encode on one live document, construct-"
+        "attempt-encode, attempt-construct-encode, 20 % with a failing encode in front; the live document shares one of the "
+        "attempt's objects (the body for a refused column / body list, else mostly a text component / page), 70 % a member of the shared-"
+        "sections family; the target's reference is the fresh interpreter that never made the attempt")
 TRUSTED = [
     "Lean 4.33 kernel; axioms ⊆ {propext, Classical.choice, Quot.sound} (audited per theorem on every run)",
     "Lean compiler for the driver executable",
@@ -147,6 +163,8 @@ TRUSTED = [
 ]
 ASSUME = [
     "histories are sequential (concurrency is C15); the user does not assign to component attributes between operations",
+    "the combinations of the refused-constructions family are refused by RTFDocument's validator (checked on every attempt: "
+    "an accepted one is reported as a disagreement with the model, in which an attempt changes nothing)",
     "figure files and the working directory change only through the file-system events the history lists (between "
     "operations, never during a call); the reference for a target is the fresh interpreter in the file system as it is "
     "when the target is encoded; polars, pydantic, Pillow are parameters",
@@ -180,7 +198,10 @@ MANIFEST = dict(
          "document holds the caller's own body exactly when the body has explicit full-length widths, a header exactly "
          "when it has widths of its own (Props/C14share); the shared-sections family puts such objects (and copied ones) "
          "into single- and multi-section documents at every section position and encodes every ordered pair of them "
-         "(input_distribution share_body:* / share_header:* = <place in the earlier document>-><place in the target>).",
+         "(input_distribution share_body:* / share_header:* = <place in the earlier document>-><place in the target>). "
+         "Refused constructions: an RTFDocument(...) call the validator rejects is an operation of the histories "
+         "(`attempt`); in the model it is a step that leaves the world alone (nothing is constructed, no object is "
+         "written), the check that the library does refuse the combination is made on the recorded outcome.",
     technique="Lean 4 proof (invariant over reachable worlds, induction over histories) + history-based differential "
               "check against a fresh interpreter",
     design="7/C14",
@@ -844,7 +865,9 @@ def gen_sharefamily(rng, pool, labels, names, turn):
     srcs = [add("RTFSource", text="Source: shared table", as_table=True), add("RTFSource", text="Source: shared paragraph")]
     ph = add("RTFPageHeader", **({"text_color": rng.choice(cs)} if rng.random() < 0.3 else {}))
     pf = add("RTFPageFooter", text="Shared footer")
-    info = dict(members=[], kinds=kinds, bodies=bid, headers=dict(explicit=hE, widthless=hN, textless=hT), ncol=ncol)
+    info = dict(members=[], kinds=kinds, bodies=bid, headers=dict(explicit=hE, widthless=hN, textless=hT), ncol=ncol,
+                frames=[fX, fY, fZ, fOther],
+                text=dict(pages=pages, title=title, subline=subl, footnotes=fns, sources=srcs, page_header=ph, page_footer=pf))
 
     def others():
         o = {}
@@ -967,6 +990,150 @@ def count_share(res, pool, hist):
             for e in earlier:
                 if e.get(key) == tgt[key] and e is not tgt:
                     res.count(f"share_{key}:{e['kind']}->{tgt['kind']}")
+
+
+# ------------------------------------------------------------------ refused constructions (attempts the library rejects)
+
+REFUSED_MODES = ["encode-attempt-encode", "construct-attempt-encode", "attempt-then-construct"]
+
+
+def gen_refused(rng, pool, labels):
+    """Append to the pool documents whose CONSTRUCTION the library refuses (`RTFDocument(...)` raises in its validator),
+    built on component objects that live documents of the pool use too: a figure with a table-rendered footnote / a
+    table-rendered source, a frame together with a figure, neither a frame nor a figure, more / fewer bodies than
+    frames, a bare body for a list of frames, a nested header list of another length than the frames, page_by /
+    group_by / subline_by naming a column the frame does not have, group_by on a column that page_by removes.  They are
+    never targets; histories ATTEMPT them (operation `attempt`: the exception is caught, the caller's objects stay in
+    use) between the operations on documents that share their components."""
+    comps, frames, docs = pool["components"], pool["frames"], pool["docs"]
+    sh = pool["sharefamily"]
+    nb = pool.get("n_base_comps", len(comps))
+    base = {}
+    for i, c in enumerate(comps[:nb]):
+        base.setdefault(c["cls"], []).append(i)
+    tx = sh["text"]
+    fig = base["RTFFigure"][0]
+    base_tab_fn = [i for i in base.get("RTFFootnote", []) if comps[i]["kw"].get("as_table") is not False]
+    base_par_fn = [i for i in base.get("RTFFootnote", []) if comps[i]["kw"].get("as_table") is False]
+    base_tab_src = [i for i in base.get("RTFSource", []) if comps[i]["kw"].get("as_table")]
+    fX, fY, fZ, _ = sh["frames"]
+    A, B, C = (sh["bodies"][r] for r in "ABC")
+    frames.append(dict(cols=["c0", "c1"], rows=[[f"r{i}c0", f"r{i}c1"] for i in range(rng.randint(2, 5))]))
+    fNoG = len(frames) - 1
+    info = dict(members=[])
+
+    def member(label, kind, secs, headers="default", body_arg=None, **others):
+        d = dict(kind=kind, secs=[list(x) for x in secs], headers=headers)
+        for k in ("page", "title", "subline", "footnote", "source", "page_header", "page_footer", "figure"):
+            d[k] = others.get(k)
+        if body_arg is not None:
+            d["body_arg"] = body_arg
+        docs.append(d)
+        labels.append("refused-" + label)
+        info["members"].append(len(docs) - 1)
+
+    def some(**o):
+        """a few more shared text components around the refused combination"""
+        if rng.random() < 0.4:
+            o.setdefault("title", rng.choice([tx["title"]] + base.get("RTFTitle", [])))
+        if rng.random() < 0.3:
+            o.setdefault("page", rng.choice(tx["pages"]))
+        if rng.random() < 0.3:
+            o.setdefault("page_footer", tx["page_footer"])
+        return o
+
+    def by_kw(key):
+        return [i for i in base.get("RTFBody", []) if comps[i]["kw"].get(key)]
+
+    member("figure+table-footnote", "figure", [], figure=fig, footnote=tx["footnotes"][0])
+    if base_tab_fn:
+        member("figure+table-footnote-of-the-base-pool", "figure", [], figure=fig, footnote=rng.choice(base_tab_fn))
+    member("figure+table-source", "figure", [], figure=fig, source=tx["sources"][0],
+           **({"footnote": rng.choice([tx["footnotes"][1]] + base_par_fn)} if rng.random() < 0.5 else {}))
+    if base_tab_src:
+        member("figure+table-source-of-the-base-pool", "figure", [], figure=fig, source=rng.choice(base_tab_src))
+    member("frame+figure", "single", [(fX, A)], figure=fig, **some(footnote=rng.choice(tx["footnotes"])))
+    member("neither-frame-nor-figure", "figure", [], **some(title=tx["title"], footnote=rng.choice(tx["footnotes"])))
+    member("more-bodies-than-frames", "multi", [(fX, A), (fY, B)], body_arg=[A, B, C], **some())
+    member("fewer-bodies-than-frames", "multi", [(fX, A), (fY, B)], body_arg=[rng.choice([A, B])], **some())
+    member("bare-body-for-frame-list", "multi", [(fX, A), (fY, B)], body_arg=dict(single=rng.choice([A, B])), **some())
+    member("nested-headers-other-length", "multi", [(fX, A), (fY, B)],
+           dict(nested=rng.choice([[[sh["headers"]["explicit"]]], [[sh["headers"]["widthless"]], [None], [sh["headers"]["textless"]]]])),
+           **some())
+    for key in ("page_by", "group_by", "subline_by"):
+        if by_kw(key):
+            member(key + "-column-not-in-frame", "single", [(fNoG, rng.choice(by_kw(key)))], **some())
+    comps.append(dict(cls="RTFBody", kw=dict(group_by=["g"], page_by=["g"])))
+    member("group_by-on-column-removed-by-page_by", "single", [(fX, len(comps) - 1)],
+           **some(footnote=rng.choice(tx["footnotes"])))
+    pool["refused"] = info
+    return info
+
+
+def _all_comp_ids(dd):
+    ids = list(doc_comp_ids(dd))
+    ba = dd.get("body_arg")
+    if ba is not None:
+        ids += [ba["single"]] if isinstance(ba, dict) else list(ba)
+    return ids
+
+
+def gen_refused_history(rng, pool, labels, j):
+    """the j-th refused document is attempted around the operations on a live document that shares one of its objects
+    (a text component rather than the figure, mostly): encode – attempt – encode again, construct – attempt – encode,
+    attempt – construct – encode; now and then a second attempt and a failing encode in between"""
+    info, docs, comps = pool["refused"], pool["docs"], pool["components"]
+    fam = info["members"]
+    r = fam[j % len(fam)]
+    nd = pool.get("n_base", len(docs))
+    cand = list(range(nd)) + list(pool["sharefamily"]["members"])
+    failing = [i for i, l in enumerate(labels[:nd]) if "fail" in l or "IndexError" in l]
+    users = {}
+    for d in cand:
+        for c in set(doc_comp_ids(docs[d])):
+            users.setdefault(c, []).append(d)
+    shared = [c for c in dict.fromkeys(_all_comp_ids(docs[r])) if users.get(c)]
+    text = [c for c in shared if comps[c]["cls"] not in ("RTFFigure", "RTFBody", "RTFColumnHeader")]
+    bodies = [c for c in shared if comps[c]["cls"] == "RTFBody"]
+    about_body = "column" in labels[r] or "bodies" in labels[r] or "bare-body" in labels[r]
+    if shared:
+        # the object the refusal is about, mostly: the body for a refused column / body list, a text component otherwise
+        if about_body and bodies and rng.random() < 0.7:
+            c = rng.choice(bodies)
+        else:
+            c = rng.choice(text) if text and rng.random() < 0.8 else rng.choice(shared)
+        fam_users = [d for d in users[c] if d >= nd]
+        target = rng.choice(fam_users) if fam_users and rng.random() < 0.7 else rng.choice(users[c])
+        via = comps[c]["cls"]
+    else:
+        target, via = rng.choice(pool["sharefamily"]["members"]), "nothing"
+    mode = rng.choice(REFUSED_MODES + (["attempt-then-construct"] * 2 if about_body else []))
+    ops, kinds = [], []
+
+    def attempts():
+        ops.append(["attempt", r])
+        kinds.append("attempt:" + labels[r])
+        if rng.random() < 0.4:
+            r2 = rng.choice(fam)
+            ops.append(["attempt", r2])
+            kinds.append("attempt:" + labels[r2])
+
+    reuse = None
+    if rng.random() < 0.2 and failing:
+        ops += [["construct", 1, rng.choice(failing)], ["encode", 1]]
+        kinds.append("fail")
+    if mode == "encode-attempt-encode":
+        ops += [["construct", 0, target], ["encode", 0]]
+        attempts()
+        reuse = 0
+    elif mode == "construct-attempt-encode":
+        ops += [["construct", 0, target]]
+        attempts()
+        reuse = 0
+    else:
+        attempts()
+    hist = dict(ops=ops, target=target, reuse=reuse, target_twice=rng.random() < 0.3, refused_mode=mode, refused_via=via)
+    return hist, ("refused", tuple(kinds), labels[target], mode)
 
 
 # ------------------------------------------------------------------ figure-files family (what an encode reads from disk)
@@ -1488,7 +1655,12 @@ def corpus(names):
              # the body of a single-section document; a header with explicit widths likewise
              dict(cls="RTFBody", kw=dict(col_rel_width=[2, 1, 1])),                          # 14
              dict(cls="RTFBody", kw=dict(col_rel_width=[1, 1, 1])),                          # 15
-             dict(cls="RTFColumnHeader", kw=dict(text=["G", "S", "C"], col_rel_width=[2, 1, 1]))]   # 16
+             dict(cls="RTFColumnHeader", kw=dict(text=["G", "S", "C"], col_rel_width=[2, 1, 1])),   # 16
+             # round-12 seeded change (a refusal of the constructor turned into an assignment into the caller's object): a
+             # footnote with the default as_table=True under a table document, and handed to a figure document
+             dict(cls="RTFFootnote", kw=dict(text="N = number of subjects")),                # 17
+             dict(cls="RTFFigure", kw=dict(files=[dict(name="c.png", hex=_png(2, 2, (0, 128, 0)).hex())],
+                                           fig_width=2, fig_height=2))]                      # 18
     f3 = dict(cols=["g", "s", "c0"], rows=[["A", "x", "1"], ["B", "x", "2"]])
     f4 = dict(cols=["g", "s", "c0", "c1"], rows=[["A", "x", "1", "2"], ["A", "x", "3", "4"]])
     fbad = dict(cols=["g", "s", "c0"], rows=[["A", "x", "1"], ["B", "x", "2"], ["A", "x", "3"]])
@@ -1516,10 +1688,13 @@ def corpus(names):
             d("single", [[5, 11]]),                      # 8: 9.5 pt
             d("single", [[6, 12]], title=13),            # 9: subline_by + two page_by columns
             d("single", [[0, 14]], dict(flat=[16])),                      # 10: explicit-width body and header
-            d("multi", [[0, 14], [0, 15]], dict(nested=[[16], [None]]))]  # 11: the same objects in the first of two sections
+            d("multi", [[0, 14], [0, 15]], dict(nested=[[16], [None]])),  # 11: the same objects in the first of two sections
+            d("single", [[0, 8]], footnote=17),                           # 12: table document, footnote closes the table
+            d("figure", [], footnote=17, figure=18)]                      # 13: refused (figure + table-rendered footnote)
     pool = dict(components=comps, frames=[f3, f4, fbad, f5, fcom, fsite, flist], docs=docs)
     labels = ["shared-3col", "shared-4col", "fail-blue", "multi", "multi-2-5", "hdr-131", "hdr-311", "edge-9.7pt", "plain-9.5pt",
-              "listing-subline+page_by2", "explicit-body-single", "explicit-body-first-of-two"]
+              "listing-subline+page_by2", "explicit-body-single", "explicit-body-first-of-two", "table-footnote",
+              "refused-figure+table-footnote"]
     hs = [dict(ops=[["construct", 0, 0]], target=1, reuse=None, target_twice=False),
           dict(ops=[["construct", 0, 1]], target=0, reuse=None, target_twice=True),
           dict(ops=[["construct", 0, 2], ["encode", 0]], target=3, reuse=None, target_twice=False),
@@ -1536,7 +1711,9 @@ def corpus(names):
           dict(ops=[["construct", 0, 11], ["encode", 0]], target=10, reuse=None, target_twice=False),
           dict(ops=[["construct", 0, 10], ["construct", 1, 11], ["encode", 0], ["encode", 1]], target=10, reuse=0,
                target_twice=True),
-          dict(ops=[["construct", 0, 10], ["encode", 0]], target=11, reuse=None, target_twice=True)]
+          dict(ops=[["construct", 0, 10], ["encode", 0]], target=11, reuse=None, target_twice=True),
+          dict(ops=[["construct", 0, 12], ["encode", 0], ["attempt", 13]], target=12, reuse=0, target_twice=False),
+          dict(ops=[["attempt", 13]], target=12, reuse=None, target_twice=True)]
     return pool, labels, hs
 
 
@@ -1581,7 +1758,9 @@ def model_request(pool, hist, ob, hashseed=0, ref_seeds=()):
             ops.append(dict(op="construct", n=op[1], ctor=ctor_of(pool["docs"][op[2]])))
         elif op[0] == "lookup":
             ops.append(dict(op="lookup", c=op[1]))
-        elif op[0] == "measure":
+        elif op[0] in ("measure", "attempt"):
+            # a refused `RTFDocument(...)` raises in the validator before anything is stored: no document, no state —
+            # a step that leaves the world alone (that the library does refuse is checked in `judge`)
             ops.append(dict(op="measure"))
         else:
             ops.append(dict(op=op[0], n=op[1]))
@@ -1815,6 +1994,11 @@ def judge(res, case, pool, hist, ob, fresh, mdl, orc, others=(), fm=None):
         elif k == "lookup":
             if o["idx"] != "unavailable" and mo.get("looked") != o["idx"]:
                 dis.append(f"colour lookup outside an encode: model {mo.get('looked')} vs implementation {o['idx']}")
+        elif k == "attempt":
+            if o["ok"]:
+                did = hist["ops"][mi][1]
+                dis.append(f"RTFDocument(...) accepted a combination it refuses ({(case.get('labels') or {did: did})[did]}): "
+                           f"model: ValueError raised by the validator, nothing constructed, no object touched")
         elif k == "measure":
             # the model: no state behind a measurement, i.e. the stateless Pillow function of the call's arguments
             q = hist["ops"][mi][1]          # one observation per operation, in order
@@ -2017,6 +2201,8 @@ def execute(res, groups, fresh_cache, others_cache=None, ref_seeds=()):
                 res.count("prior_measure:" + ("value" if "val" in o else o["cls"]))
             elif o["kind"] == "fs":
                 res.count("figfs_event:" + o["ev"])
+            elif o["kind"] == "attempt":
+                res.count("prior_attempt:" + ("constructed" if o["ok"] else "refused:" + o["cls"]))
         t = ob["target"]
         res.count("target_outcome:" + ("construct-error" if "construct" in t else kind_of_impl(t["out"])))
         if h.get("reuse") is not None:
@@ -2025,6 +2211,11 @@ def execute(res, groups, fresh_cache, others_cache=None, ref_seeds=()):
             count_files(res, p, h, fm)
         if h.get("share_mode") is not None and p.get("sharefamily"):
             count_share(res, p, h)
+        if h.get("refused_mode") is not None:
+            res.count("refused_history:" + h["refused_mode"] + ":shares-" + h.get("refused_via", "?"))
+            for op in h["ops"]:
+                if op[0] == "attempt":
+                    res.count("attempted:" + labels[op[1]])
         judge(res, case, p, h, ob, fresh_cache[key], mdl, orc, others, fm)
 
 
@@ -2058,6 +2249,7 @@ def run(res: common.Result, build) -> int:
     per_measured = 18 if quick else 36
     per_figfs = 14 if quick else 24
     per_share = 16 if quick else 32
+    per_refused = 8 if quick else 15
     pairs = share_pairs(res.seed)
     fresh_cache = {}
     work = []
@@ -2106,6 +2298,12 @@ def run(res: common.Result, build) -> int:
         for k in range(per_share):
             pair = pairs[(r * per_share + k) % len(pairs)]
             h, nt = gen_share_history(sub_rng(res.seed, "c14shist", r, k), pool, labels, pair)
+            work.append((r, pool, labels, h, nt))
+        # refused constructions (appended last): attempts the validator rejects, on objects live documents use
+        rinfo = gen_refused(sub_rng(res.seed, "c14refused", r), pool, labels)
+        res.count("refused_family_documents", len(rinfo["members"]))
+        for k in range(per_refused):
+            h, nt = gen_refused_history(sub_rng(res.seed, "c14rhist", r, k), pool, labels, r * per_refused + k + 5 * res.seed)
             work.append((r, pool, labels, h, nt))
     seeds = [1 + rng.randrange(4_000_000_000)]
     # the histories run in interpreters with two different hash seeds (alternating), every reference is computed
